@@ -468,15 +468,15 @@ Qed.
 
 (* ---- logged status and size are what the client got ----------------------------------------- *)
 (* the recorder and the writer below it agree: every byte the writer accepted is in the recorder's
-   count, except those accepted by a call that reported an error (u_lost); and either both have
+   count — those accepted by a call that also reported an error included; and either both have
    committed the same status or neither has (the recorder then still holds its default 200) *)
 Definition consistent (c : wcfg) (s : uw * rec) : Prop :=
-  u_size (fst s) = logged_size c (snd s) + u_lost (fst s) /\
+  u_size (fst s) = logged_size c (snd s) /\
   ((u_status (fst s) = Some (r_status (snd s)) /\ r_wrote (snd s) = true) \/
    (u_status (fst s) = None /\ r_status (snd s) = 200%Z /\ r_wrote (snd s) = false)).
 
 Lemma consistent_client c s : consistent c s ->
-  client_status (fst s) = r_status (snd s) /\ u_size (fst s) = logged_size c (snd s) + u_lost (fst s).
+  client_status (fst s) = r_status (snd s) /\ u_size (fst s) = logged_size c (snd s).
 Proof.
   intros [Hs [[Hc _]|[Hc [H2 _]]]]; split; try exact Hs; unfold client_status; rewrite Hc; [reflexivity|].
   symmetry. exact H2.
@@ -491,8 +491,7 @@ Proof. unfold head_ok. destruct (w_head c), (w_nethttp c); simpl; auto; discrimi
 
 (* the implicit 200 of a body call *)
 Lemma wh200_view c u r : consistent c (u, r) ->
-  u_status (uw_wh u 200) = Some (r_status r) /\ u_size (uw_wh u 200) = u_size u /\
-  u_lost (uw_wh u 200) = u_lost u.
+  u_status (uw_wh u 200) = Some (r_status r) /\ u_size (uw_wh u 200) = u_size u.
 Proof.
   intros [_ Hc]. cbn [fst snd] in Hc. unfold uw_wh.
   destruct Hc as [[Hc _]|[Hc [H2 _]]]; rewrite Hc; cbn; [auto|]. rewrite H2. auto.
@@ -513,9 +512,9 @@ Proof.
     destruct Hc as [[Hc Hw]|[Hc [H2 Hw]]]; rewrite Hc, Hw; simpl.
     + split; [exact Hs|left; split; assumption].
     + rewrite Hf. simpl. split; [exact Hs|left; split; reflexivity].
-  - destruct (wh200_view c u r Hcons) as [Hst [Hsz Hlo]]. destruct Hcons as [Hs Hc0]. cbn [fst snd] in Hs.
+  - destruct (wh200_view c u r Hcons) as [Hst Hsz]. destruct Hcons as [Hs Hc0]. cbn [fst snd] in Hs.
     assert (Hfin : forall u' n, u_status u' = u_status (uw_wh u 200) ->
-              u_size u' = logged_size c (rec_add r n) + u_lost u' -> consistent c (u', rec_add r n)).
+              u_size u' = logged_size c (rec_add r n) -> consistent c (u', rec_add r n)).
     { intros u' n E1 E2. split; [exact E2|]. left. cbn [fst snd]. rewrite E1. split; [exact Hst|reflexivity]. }
     destruct k; cbn [step].
     + unfold uw_write, uw_mode.
@@ -570,13 +569,13 @@ Proof. intro H. simpl. rewrite (error_code_final ret H). reflexivity. Qed.
 
 (* whatever the handler does: either no line is written, or the middleware returns (it does not
    panic) a status below 400 (so that the server adds nothing) and every line carries the
-   committed status and the accepted byte count, less the bytes accepted by failing calls *)
+   committed status and the accepted byte count *)
 Lemma log_serve_lines c cs tbl ek rules path ops ret :
   head_ok c = true -> final_codes ops = true ->
   let '(u', ret', p, lines) := log_serve c cs tbl ek rules path ops ret uw0 return Prop in
   lines = [] \/
   (p = false /\ (400 <=? ret')%Z = false /\
-   forall l, In l lines -> snd (fst l) = client_status u' /\ snd l + u_lost u' = u_size u').
+   forall l, In l lines -> snd (fst l) = client_status u' /\ snd l = u_size u').
 Proof.
   intros Hh Hf. unfold log_serve.
   destruct (find (fun r => path_matches cs path (ru_scope r)) rules) as [r|].
@@ -598,7 +597,7 @@ Qed.
 Lemma logged_exact c cs tbl ek rules path ops ret :
   head_ok c = true -> final_codes ops = true ->
   let '(u', _, _, lines) := log_serve c cs tbl ek rules path ops ret uw0 return Prop in
-  forall l, In l lines -> snd (fst l) = client_status u' /\ snd l + u_lost u' = u_size u'.
+  forall l, In l lines -> snd (fst l) = client_status u' /\ snd l = u_size u'.
 Proof.
   intros Hh Hf. pose proof (log_serve_lines c cs tbl ek rules path ops ret Hh Hf) as H.
   destruct (log_serve c cs tbl ek rules path ops ret uw0) as [[[u' r'] p] lines].
@@ -730,7 +729,7 @@ Qed.
 Lemma site_run_exact c cs tbl (haserr hdrw : bool) ds path ops ret :
   head_ok c = true -> final_codes ops = true ->
   let '(u', lines) := site_run c cs tbl haserr hdrw ds path ops ret return Prop in
-  forall l, In l lines -> snd (fst l) = client_status u' /\ snd l + u_lost u' = u_size u'.
+  forall l, In l lines -> snd (fst l) = client_status u' /\ snd l = u_size u'.
 Proof.
   intros Hh Hf. unfold site_run.
   pose proof (inner_flat_final tbl haserr hdrw ops ret Hf) as Hf1.
@@ -740,125 +739,15 @@ Proof.
   destruct H as [->|[-> [Hr H]]]; [intros l []|]. rewrite Hr. exact H.
 Qed.
 
-(* ---- bytes accepted by failing calls ------------------------------------------------------------ *)
-Lemma step_lost_clean c u r o :
-  clean_cut o = true -> u_lost u = 0 -> u_lost (fst (step c (u, r) o)) = 0.
-Proof.
-  intros Hc H0. destruct o as [code|k len se cut|]; [| |exact H0].
-  - cbn. unfold uw_wh. destruct (u_status u); cbn; exact H0.
-  - assert (H1 : u_lost (uw_wh u 200) = 0) by (unfold uw_wh; destruct (u_status u); cbn; exact H0).
-    destruct k; cbn [step].
-    + unfold uw_write. destruct (uw_mode c (uw_wh u 200) =? 1); [exact H1|].
-      destruct (uw_mode c (uw_wh u 200) =? 2); [exact H1|].
-      destruct (uw_mode c (uw_wh u 200) =? 3); [exact H1|].
-      destruct cut as [j|]; cbn; [|lia]. cbn in Hc. apply N.eqb_eq in Hc. lia.
-    + destruct (len =? 0); [exact H0|].
-      unfold uw_copy. destruct (uw_mode c (uw_wh u 200) =? 1); [exact H1|].
-      destruct (uw_mode c (uw_wh u 200) =? 2); [exact H1|].
-      destruct (uw_mode c (uw_wh u 200) =? 3); [exact H1|].
-      destruct cut as [j|]; cbn; [|lia]. cbn in Hc. apply N.eqb_eq in Hc. fold copy_chunk. lia.
-Qed.
-
-Lemma run_lost_clean c : forall ops u r,
-  clean_cuts ops = true -> u_lost u = 0 -> u_lost (fst (fst (run c (u, r) ops))) = 0.
-Proof.
-  induction ops as [|o ops IH]; intros u r Hc H0; [exact H0|].
-  simpl in Hc. apply andb_true_iff in Hc as [Ho Hc].
-  pose proof (step_lost_clean c u r o Ho H0) as H1.
-  destruct (step c (u, r) o) as [u1 r1] eqn:Es. cbn [fst] in H1.
-  destruct o as [code|k len se cut|]; cbn [run]; [rewrite Es; apply IH; assumption|rewrite Es; apply IH; assumption|exact H0].
-Qed.
-
-Lemma clean_cuts_app a b : clean_cuts (a ++ b) = clean_cuts a && clean_cuts b.
-Proof. unfold clean_cuts. apply forallb_app. Qed.
-
-Lemma err_ops_clean tbl ek code : clean_cuts (err_ops tbl ek code) = true.
-Proof. reflexivity. Qed.
-
-Lemma upto_panic_clean : forall ops, clean_cuts ops = true -> clean_cuts (fst (upto_panic ops)) = true.
-Proof.
-  induction ops as [|o ops IH]; intro H; [reflexivity|].
-  simpl in H. apply andb_true_iff in H as [Ho H]. specialize (IH H).
-  destruct o as [code|k len se cut|]; [| |reflexivity]; simpl; destruct (upto_panic ops); simpl in *; rewrite ?Ho, IH; reflexivity.
-Qed.
-
-Lemma errors_flat_clean tbl ops ret : clean_cuts ops = true -> clean_cuts (fst (errors_flat tbl ops ret)) = true.
-Proof.
-  intro H. unfold errors_flat. pose proof (upto_panic_clean ops H) as Ha.
-  destruct (upto_panic ops) as [a p]. simpl in Ha.
-  destruct p; [|destruct (400 <=? ret)%Z]; cbn [fst]; rewrite ?clean_cuts_app, ?Ha; reflexivity.
-Qed.
-
-Lemma header_filter_clean : forall ops w, clean_cuts ops = true -> clean_cuts (header_filter w ops) = true.
-Proof.
-  induction ops as [|o ops IH]; intros w H; [reflexivity|].
-  simpl in H. apply andb_true_iff in H as [Ho H].
-  destruct o as [code|k len se cut|]; simpl.
-  - destruct w; simpl; apply IH; exact H.
-  - simpl in Ho. rewrite Ho. apply IH. exact H.
-  - apply IH. exact H.
-Qed.
-
-Lemma inner_flat_clean tbl (haserr hdrw : bool) ops ret :
-  clean_cuts ops = true -> clean_cuts (fst (inner_flat tbl haserr hdrw ops ret)) = true.
-Proof.
-  intro H. unfold inner_flat.
-  assert (Hn : clean_cuts (fst (if haserr then errors_flat tbl ops ret else (ops, ret))) = true).
-  { destruct haserr; [apply errors_flat_clean|]; exact H. }
-  destruct (if haserr then errors_flat tbl ops ret else (ops, ret)) as [ops1 ret1]. simpl in *.
-  destruct hdrw; [apply header_filter_clean|]; exact Hn.
-Qed.
-
-Lemma log_serve_lost_clean c cs tbl ek rules path ops ret u :
-  clean_cuts ops = true -> u_lost u = 0 ->
-  u_lost (fst (fst (fst (log_serve c cs tbl ek rules path ops ret u)))) = 0.
-Proof.
-  intros Hc H0. unfold log_serve.
-  pose proof (run_lost_clean c ops u rec0 Hc H0) as H1.
-  destruct (find (fun r => path_matches cs path (ru_scope r)) rules) as [r|].
-  - destruct (run c (u, rec0) ops) as [[u1 r1] p]. cbn [fst] in H1.
-    destruct (400 <=? (if p then 500 else ret))%Z; [|exact H1].
-    pose proof (run_lost_clean c (err_ops tbl ek (if p then 500%Z else ret)) u1 r1 (err_ops_clean _ _ _) H1) as H2.
-    destruct (run c (u1, r1) (err_ops tbl ek (if p then 500%Z else ret))) as [[u2 r2] p2]. exact H2.
-  - destruct (run c (u, rec0) ops) as [[u' r'] p]. exact H1.
-Qed.
-
-Lemma site_run_lost_clean c cs tbl (haserr hdrw : bool) ds path ops ret :
-  clean_cuts ops = true -> u_lost (fst (site_run c cs tbl haserr hdrw ds path ops ret)) = 0.
-Proof.
-  intro Hc. unfold site_run.
-  pose proof (inner_flat_clean tbl haserr hdrw ops ret Hc) as Hc1.
-  destruct (inner_flat tbl haserr hdrw ops ret) as [ops1 ret1]. cbn [fst] in Hc1.
-  pose proof (log_serve_lost_clean c cs tbl 1 (parse_logs ds 0 []) path ops1 ret1 uw0 Hc1 eq_refl) as H.
-  destruct (log_serve c cs tbl 1 (parse_logs ds 0 []) path ops1 ret1 uw0) as [[[u ret2] p] lines]. cbn [fst] in *.
-  destruct p.
-  - apply (run_lost_clean c (err_ops tbl 1 500) u rec0 (err_ops_clean _ _ _) H).
-  - destruct (400 <=? ret2)%Z; [|exact H].
-    apply (run_lost_clean c (err_ops tbl 1 ret2) u rec0 (err_ops_clean _ _ _) H).
-Qed.
-
-(* with all-or-nothing writer failures: the lines are what the client is sent, to the byte *)
+(* the lines are what the client is sent, to the byte *)
 Lemma site_logged_exact c cs tbl (haserr hdrw : bool) ds path ops ret :
-  head_ok c = true -> final_codes ops = true -> clean_cuts ops = true ->
+  head_ok c = true -> final_codes ops = true ->
   let '(st, sz, lines) := site_serve c cs tbl haserr hdrw ds path ops ret return Prop in
   forall l, In l lines -> snd (fst l) = st /\ snd l = sz.
 Proof.
-  intros Hh Hf Hc. unfold site_serve.
+  intros Hh Hf. unfold site_serve.
   pose proof (site_run_exact c cs tbl haserr hdrw ds path ops ret Hh Hf) as H.
-  pose proof (site_run_lost_clean c cs tbl haserr hdrw ds path ops ret Hc) as H0.
-  destruct (site_run c cs tbl haserr hdrw ds path ops ret) as [u' lines]. cbn [fst] in H0.
-  intros l Hl. destruct (H l Hl) as [H1 H2]. split; [exact H1|]. rewrite H0 in H2. lia.
-Qed.
-
-Lemma logged_exact_clean c cs tbl ek rules path ops ret :
-  head_ok c = true -> final_codes ops = true -> clean_cuts ops = true ->
-  let '(u', _, _, lines) := log_serve c cs tbl ek rules path ops ret uw0 return Prop in
-  forall l, In l lines -> snd (fst l) = client_status u' /\ snd l = u_size u'.
-Proof.
-  intros Hh Hf Hc. pose proof (logged_exact c cs tbl ek rules path ops ret Hh Hf) as H.
-  pose proof (log_serve_lost_clean c cs tbl ek rules path ops ret uw0 Hc eq_refl) as H0.
-  destruct (log_serve c cs tbl ek rules path ops ret uw0) as [[[u' r'] p] lines]. cbn [fst] in H0.
-  intros l Hl. destruct (H l Hl) as [H1 H2]. split; [exact H1|]. rewrite H0 in H2. lia.
+  destruct (site_run c cs tbl haserr hdrw ds path ops ret) as [u' lines]. exact H.
 Qed.
 
 Lemma site_lines c cs tbl (haserr hdrw : bool) ds path ops ret :
@@ -946,12 +835,11 @@ Qed.
 (* ------------------------------------------------------------------------------------------ *)
 (* every op sequence — Write, WriteString, io.Copy / CopyN / ReadFrom-if-offered from sources
    that end or FAIL after any number of bytes, calls cut short by the writer at any byte: the
-   bytes the writer accepted are the logged size plus the bytes accepted by calls that reported
-   an error *)
-Lemma size_accepted_general c ops :
+   bytes the writer accepted are the logged size *)
+Lemma size_accepted c ops :
   head_ok c = true -> final_codes ops = true ->
   let '((u, r), _) := run c (uw0, rec0) ops return Prop in
-  client_status u = r_status r /\ u_size u = logged_size c r + u_lost u.
+  client_status u = r_status r /\ u_size u = logged_size c r.
 Proof.
   intros Hh Hf. pose proof (run_consistent c ops (uw0, rec0) Hh Hf (consistent_init c)) as H.
   destruct (run c (uw0, rec0) ops) as [[u r] p]. cbn [fst] in H.
@@ -967,35 +855,6 @@ Proof.
   induction ops as [|o ops IH]; intro s; [reflexivity|].
   destruct o as [code|k len se cut|]; cbn [map clear_srcerr run]; [apply IH| |reflexivity].
   rewrite IH. rewrite <- (step_srcerr_irrelevant c s (OB k len se cut)). reflexivity.
-Qed.
-
-Lemma uncut_clean : forall ops, uncut ops = true -> clean_cuts ops = true.
-Proof.
-  induction ops as [|o ops IH]; intro H; [reflexivity|].
-  simpl in H. apply andb_true_iff in H as [Ho H]. cbn [clean_cuts forallb]. fold (clean_cuts ops). rewrite (IH H), andb_true_r.
-  destruct o as [code|k len se [j|]|]; try reflexivity; try discriminate; destruct k; reflexivity.
-Qed.
-
-(* no writer-side failure (the client reads everything): the logged size is what the writer
-   accepted, whatever the sources of the copies do *)
-Lemma size_accepted_sources c ops :
-  head_ok c = true -> final_codes ops = true -> clean_cuts ops = true ->
-  let '((u, r), _) := run c (uw0, rec0) ops return Prop in
-  u_lost u = 0 /\ u_size u = logged_size c r.
-Proof.
-  intros Hh Hf Hc. pose proof (size_accepted_general c ops Hh Hf) as H.
-  pose proof (run_lost_clean c ops uw0 rec0 Hc eq_refl) as H0.
-  destruct (run c (uw0, rec0) ops) as [[u r] p]. cbn [fst] in H0. destruct H as [_ H].
-  split; [exact H0|]. rewrite H0 in H. lia.
-Qed.
-
-(* ... but a Write that the writer cuts short after accepting some bytes counts none of them *)
-Lemma size_accepted_refuted :
-  exists c ops, head_ok c = true /\ final_codes ops = true /\
-    let '((u, r), _) := run c (uw0, rec0) ops return Prop in logged_size c r < u_size u.
-Proof.
-  exists {| w_nethttp := true; w_head := false |}, [OB BWrite 8388608 false (Some 847721)].
-  vm_compute. repeat split.
 Qed.
 
 (* ------------------------------------------------------------------------------------------ *)
@@ -1123,86 +982,12 @@ Proof.
   - intros [h Hh]. apply assoc_some_in in Hh. rewrite forallb_forall in H2. exact (H2 (key, h) Hh).
 Qed.
 
-Lemma size_accepted_partial c ops :
-  head_ok c = true -> final_codes ops = true ->
-  let '((u, r), _) := run c (uw0, rec0) ops return Prop in
-  client_status u = r_status r /\
-  u_size u = logged_size c r + u_lost u /\
-  (clean_cuts ops = true -> u_lost u = 0 /\ u_size u = logged_size c r).
-Proof.
-  intros Hh Hf. pose proof (size_accepted_general c ops Hh Hf) as H.
-  pose proof (size_accepted_sources c ops Hh Hf) as H2.
-  destruct (run c (uw0, rec0) ops) as [[u r] p]. destruct H as [Ha Hb]. repeat split; auto; apply H2; assumption.
-Qed.
-
 Lemma source_failures_lose_nothing c ops :
-  head_ok c = true -> final_codes ops = true -> uncut ops = true ->
+  head_ok c = true -> final_codes ops = true ->
   run c (uw0, rec0) ops = run c (uw0, rec0) (map clear_srcerr ops) /\
   let '((u, r), _) := run c (uw0, rec0) ops return Prop in u_size u = logged_size c r.
 Proof.
-  intros Hh Hf Hu. split; [symmetry; apply run_srcerr_irrelevant|].
-  pose proof (size_accepted_sources c ops Hh Hf (uncut_clean ops Hu)) as H.
+  intros Hh Hf. split; [symmetry; apply run_srcerr_irrelevant|].
+  pose proof (size_accepted c ops Hh Hf) as H.
   destruct (run c (uw0, rec0) ops) as [[u r] p]. apply H.
-Qed.
-
-(* ------------------------------------------------------------------------------------------ *)
-(* G. on a net/http connection at most ONE call loses bytes                                     *)
-(* ------------------------------------------------------------------------------------------ *)
-(* the first failed write to the connection makes every later Write fail with 0 bytes, so the
-   bytes missing from {size} are those of a single call: all of one Write at worst, less than one
-   chunk of a copy *)
-Definition lost_inv (B : N) (u : uw) : Prop :=
-  if u_dead u then u_lost u <= B else u_lost u = 0.
-
-Lemma lost_inv_wh B u code : lost_inv B u -> lost_inv B (uw_wh u code).
-Proof. unfold lost_inv, uw_wh. destruct (u_status u); cbn; auto. Qed.
-
-Lemma step_lost_inv c B u r o :
-  w_nethttp c = true -> cut_within o = true -> op_loss_bound o <= B ->
-  lost_inv B u -> lost_inv B (fst (step c (u, r) o)).
-Proof.
-  intros Hn Hc Hb Hi. destruct o as [code|k len se cut|]; [apply lost_inv_wh; exact Hi| |exact Hi].
-  pose proof (lost_inv_wh B u 200%Z Hi) as H1.
-  destruct k; cbn [step].
-  - unfold uw_write, uw_mode.
-    destruct (w_nethttp c && body_forbidden (client_status (uw_wh u 200))); cbn [N.eqb Pos.eqb]; [exact H1|].
-    destruct (w_nethttp c && w_head c); cbn [N.eqb Pos.eqb]; [exact H1|].
-    destruct (u_dead (uw_wh u 200)) eqn:Ed; cbn [N.eqb Pos.eqb]; [exact H1|].
-    unfold lost_inv in H1. rewrite Ed in H1.
-    destruct cut as [j|]; cbn; unfold lost_inv; cbn; rewrite Ed, ?Hn; cbn.
-    + cbn in Hc, Hb. apply N.ltb_lt in Hc. lia.
-    + lia.
-  - destruct (len =? 0); [exact Hi|].
-    unfold uw_copy, uw_mode.
-    destruct (w_nethttp c && body_forbidden (client_status (uw_wh u 200))); cbn [N.eqb Pos.eqb]; [exact H1|].
-    destruct (w_nethttp c && w_head c); cbn [N.eqb Pos.eqb]; [exact H1|].
-    destruct (u_dead (uw_wh u 200)) eqn:Ed; cbn [N.eqb Pos.eqb]; [exact H1|].
-    unfold lost_inv in H1. rewrite Ed in H1.
-    destruct cut as [j|]; cbn; unfold lost_inv; cbn; rewrite Ed, ?Hn; cbn.
-    + cbn in Hc, Hb. apply N.ltb_lt in Hc. fold copy_chunk.
-      pose proof (N.mod_le j copy_chunk ltac:(discriminate)).
-      pose proof (N.mod_lt j copy_chunk ltac:(discriminate)). lia.
-    + lia.
-Qed.
-
-Lemma run_lost_inv c B : forall ops u r,
-  w_nethttp c = true -> cuts_within ops = true -> max_loss ops <= B ->
-  lost_inv B u -> lost_inv B (fst (fst (run c (u, r) ops))).
-Proof.
-  induction ops as [|o ops IH]; intros u r Hn Hc Hb Hi; [exact Hi|].
-  simpl in Hc. apply andb_true_iff in Hc as [Ho Hc]. cbn [max_loss] in Hb.
-  pose proof (step_lost_inv c B u r o Hn Ho ltac:(lia) Hi) as H1.
-  destruct (step c (u, r) o) as [u1 r1] eqn:Es. cbn [fst] in H1.
-  destruct o as [code|k len se cut|]; cbn [run]; [rewrite Es; apply IH; auto; lia|rewrite Es; apply IH; auto; lia|exact Hi].
-Qed.
-
-Lemma abort_loses_one_call c ops :
-  w_nethttp c = true -> cuts_within ops = true ->
-  let '((u, r), _) := run c (uw0, rec0) ops return Prop in
-  u_lost u <= max_loss ops /\ (u_dead u = false -> u_lost u = 0).
-Proof.
-  intros Hn Hc.
-  pose proof (run_lost_inv c (max_loss ops) ops uw0 rec0 Hn Hc (N.le_refl _) eq_refl) as H.
-  destruct (run c (uw0, rec0) ops) as [[u r] p]. cbn [fst] in H. unfold lost_inv in H.
-  destruct (u_dead u); [split; [exact H|discriminate]|split; [lia|auto]].
 Qed.
